@@ -178,6 +178,17 @@ CHECKS = {
             "end of the addressed entity and at n = full.",
             "one image per message (all groups non-empty); entry indices first/last; far accesses observable within 8 GiB",
             "DESIGN.md section 3, C10"),
+    "C04": ("exploration",
+            "generated single-action interpreter in a checked build with sbepp's assertion handler as monitor; breadth-first "
+            "closure of reachable cursor states plus hostile states, every (member, wrapper, get/set) action from every "
+            "state, compared with a protocol model",
+            "For every level instance of exact and block-length-inflated images the reachable cursor positions are closed "
+            "under all legal actions (so sequences of any length are covered by their states) and extended with every "
+            "member boundary +-1; each action must either agree with random access and leave the cursor at the documented "
+            "position, or be reported by the handler with no effect. Complete inside the explored state set.",
+            "entry instances limited to first/last per group; (state, action) pairs capped per level instance (reachable "
+            "states never dropped); ranges/subranges and whole traversals are covered by C02/C03/C19 cursor modes",
+            "DESIGN.md section 3, C04"),
 }
 
 
